@@ -17,15 +17,31 @@ def check(ctx):
             sc = gpops.Script(C.rng).install()
             try:
                 sp = gpops.make_space(C.rng, n_trees=1)
+                first_functions = list(sp.functions)
+                if k % 3 == 1:
+                    # the function set is replaced through its setter after construction (same length, other arities at
+                    # the same index; or another length): what grows afterwards follows the *current* set
+                    pool = [f for f in T.OPS]
+                    C.rng.shuffle(pool)
+                    new = pool[:len(first_functions)] if k % 2 else pool[:C.rng.randint(1, 5)]
+                    sp.functions = new
                 sc.log.clear()
-                t = sp.grow(sp.min_depth, sp.max_depth)
+                err = None
+                try:
+                    t = sp.grow(sp.min_depth, sp.max_depth)
+                except Exception as ex:
+                    err = type(ex).__name__ + ': ' + str(ex)[:80]
                 draws = [d for _, _, d in sc.log]
             finally:
                 sc.remove()
+            if err is not None:
+                C.issue('grow-raised', 'oracle', dict(how='grow', functions=list(sp.functions), n_terminals=sp.n_terminals, min_depth=sp.min_depth,
+                                                      max_depth=sp.max_depth, draws=draws, first_functions=first_functions), error=err)
+                continue
             real = T.canon(t)
             model = gpops.model_grow(drv, sp, draws, sp.max_depth - sp.min_depth)
-            rp = dict(how='grow', functions=sp.functions, n_terminals=sp.n_terminals, min_depth=sp.min_depth,
-                      max_depth=sp.max_depth, draws=draws)
+            rp = dict(how='grow', functions=list(sp.functions), n_terminals=sp.n_terminals, min_depth=sp.min_depth,
+                      max_depth=sp.max_depth, draws=draws, first_functions=first_functions)
             if model != real:
                 C.issue('grow-mismatch', 'correspondence', rp, model=model, real=real)
             defects = T.wf_oracle(t, sp.n_variables, sp.n_dimensions)
@@ -183,9 +199,14 @@ def replay(prop, payload):
             np.random.seed(0)
             sp = L['TreeSpace'](n_trees=1, n_terminals=payload['n_terminals'], n_variables=1, n_iterations=1,
                                 min_depth=payload['max_depth'], max_depth=payload['max_depth'],
-                                functions=payload['functions'], lower_bound=[0.0], upper_bound=[1.0])
+                                functions=payload.get('first_functions', payload['functions']), lower_bound=[0.0], upper_bound=[1.0])
+            if payload.get('first_functions', payload['functions']) != payload['functions']:
+                sp.functions = list(payload['functions'])
             sc.forced = list(payload['draws'])
-            t = sp.grow(payload['min_depth'], payload['max_depth'])
+            try:
+                t = sp.grow(payload['min_depth'], payload['max_depth'])
+            except Exception:
+                return True
         finally:
             sc.remove()
         return bool(T.wf_oracle(t, 1, 1)) or t.max_depth > payload['max_depth']
